@@ -274,12 +274,29 @@ func fileValue(ctx context.Context, decoder rel.Tuple, filename string) (rel.Exp
 	return bytesValue(ctx, filename, bytes)
 }
 
+// importStack is the chain of files whose compilation is in progress on the
+// current call path, innermost first.
+type importStack struct {
+	filename string
+	parent   *importStack
+}
+
+type importStackKey struct{}
+
 func bytesValue(ctx context.Context, filename string, data []byte) (rel.Expr, error) {
-	compile := func() (rel.Expr, error) {
+	if filename == NoPath {
 		return Compile(ctx, filename, string(data))
 	}
-	if filename != NoPath {
-		return importcache.GetOrAddFromCache(ctx, filename, compile)
+	// A file that is being compiled further up this call path has an in-flight
+	// entry in the import cache; asking the cache for it again would wait forever.
+	parent, _ := ctx.Value(importStackKey{}).(*importStack)
+	for s := parent; s != nil; s = s.parent {
+		if s.filename == filename {
+			return nil, fmt.Errorf("import cycle: %s imports itself, directly or indirectly", filename)
+		}
 	}
-	return compile()
+	ctx = context.WithValue(ctx, importStackKey{}, &importStack{filename: filename, parent: parent})
+	return importcache.GetOrAddFromCache(ctx, filename, func() (rel.Expr, error) {
+		return Compile(ctx, filename, string(data))
+	})
 }
